@@ -1,7 +1,7 @@
 (* C11 — concrete instances showing that the hypotheses of the property
    theorems are satisfiable by non-trivial histories (non-vacuity), all by
    computation. *)
-From Yv Require Import Common.Base C11.Model C11.Spec C11.ScriptModel C11.ScriptSpec.
+From Yv Require Import Common.Base C11.Model C11.Spec C11.ScriptModel C11.ScriptSpec C11.ScriptTerm.
 
 Definition SIGUSR1 : N := 124.
 
@@ -159,4 +159,16 @@ Lemma ex_class :
   retrap_class_free (ginit refute_univ) refute_gops = false /\
   trace_retrap_free ex_tbl ex_trace = true /\
   trace_retrap_free refute_tbl refute_trace = false.
+Proof. repeat split; vm_compute; reflexivity. Qed.
+
+(* ---- termination of the trap loop -------------------------------------------------------- *)
+(* the example script satisfies the rank condition; an action that raises its
+   own signal does not, and the model runs out of any fuel tried *)
+Definition loop_tbl : table := [(1, [BProbe 1001 0; BRaise USR1 0])]%N.
+Definition loop_main : list cmd := [CB (BTrap USR1 (TBody 1)); CB (BRaise USR1 0)]%N.
+
+Lemma ex_rank :
+  rank_ok ex_tbl ex_main = true /\
+  script_ok loop_tbl loop_main = true /\ rank_ok loop_tbl loop_main = false /\
+  run_script loop_tbl 200 loop_main = None.
 Proof. repeat split; vm_compute; reflexivity. Qed.
